@@ -175,6 +175,26 @@ long mc_arg_int(const char *key, long dflt)
 	return v ? strtol(v, NULL, 0) : dflt;
 }
 
+/* per-worker scratch directory (tmpfs if available); removed when the worker / master exits */
+static char scratch_dir[128];
+const char *mc_scratch(void)
+{
+	if (!scratch_dir[0]) {
+		snprintf(scratch_dir, sizeof(scratch_dir), "%s/mcs.%d.%d", access("/dev/shm", W_OK) == 0 ? "/dev/shm" : rundir,
+			 in_child ? (int)getppid() : (int)getpid(), worker_id);
+	}
+	mkdir(scratch_dir, 0755);
+	return scratch_dir;
+}
+
+static void scratch_cleanup(void)
+{
+	char cmd[200];
+	/* name is a pure function of (pid of the worker, worker id): recompute in the worker itself */
+	snprintf(cmd, sizeof(cmd), "rm -rf '%s/mcs.%d.%d'", access("/dev/shm", W_OK) == 0 ? "/dev/shm" : rundir, (int)getpid(), worker_id);
+	if (system(cmd)) {}
+}
+
 int mc_in_child(void) { return in_child; }
 int mc_worker_id(void) { return worker_id; }
 int mc_budget_left(void) { return XB->bound - cur_cost; }
@@ -827,6 +847,7 @@ static void worker(int id, int bound, double deadline)
 			atomic_store(&S->stop, 1);
 	}
 	unlink(errfile);
+	scratch_cleanup();
 	_exit(0);
 }
 
@@ -965,6 +986,7 @@ int mc_main(int argc, char **argv, const struct mc_harness *h)
 				printf("stderr:\n%s\n", err);
 		}
 		unlink(errfile);
+		scratch_cleanup();
 		return cls == 1 ? 0 : cls == 2 ? 1 : 3;
 	}
 
@@ -1097,6 +1119,7 @@ int mc_main(int argc, char **argv, const struct mc_harness *h)
 		if (any_viol || any_broken)
 			break;
 	}
+	scratch_cleanup();
 	fprintf(f, "],\"wall_s\":%.3f}\n", now_s() - t0);
 	if (out)
 		fclose(f);
